@@ -167,7 +167,8 @@ class Models(object):
         if modpar['aperture_dependent']:
 
             if distance_range is not None:
-                distance_range_kpc = distance_range.to(u.kpc).value
+                # (in double precision, also for a range held in single precision)
+                distance_range_kpc = distance_range.astype(float).to(u.kpc).value
                 if distance_range_kpc[0] == distance_range_kpc[1]:
                     n_distances = 1
                     m.distances = np.array([distance_range_kpc[0]]) * u.kpc
@@ -258,7 +259,8 @@ class Models(object):
         if modpar['aperture_dependent']:
 
             if distance_range is not None:
-                distance_range_kpc = distance_range.to(u.kpc).value
+                # (in double precision, also for a range held in single precision)
+                distance_range_kpc = distance_range.astype(float).to(u.kpc).value
                 if distance_range_kpc[0] == distance_range_kpc[1]:
                     n_distances = 1
                     m.distances = np.array([distance_range_kpc[0]]) * u.kpc
